@@ -81,7 +81,7 @@ def reference_outputs(pname, info, q, ex):
     fa = flat_attrs(q)
     ref = {}
     if fn == '_residual':
-        ref['r'] = q._residual(ex['x'])
+        ref[info.get('last_version', {}).get('r', 'r')] = q._residual(ex['x'])
         return ref
     if fn == '_jacobian':
         ref['s.ret'] = q._jacobian(ex['x']) @ ex['h']
@@ -98,7 +98,7 @@ def reference_outputs(pname, info, q, ex):
         return ref
     for o in info['outputs']:
         if o in fa:
-            ref['s.' + o] = fa[o]
+            ref[info.get('final_name', {}).get(o, 's.' + o)] = fa[o]
     return ref
 
 
